@@ -122,6 +122,7 @@ func propC10(r *kernel.Run) {
 	sw := tp.Draw(2) == 1
 	loader := tp.Draw(2) == 1
 	w := NewWorld(r, "server", backend, sw, loader)
+	w.St.EmptyOnMiss = loader && tp.Draw(2) == 0 // a NodeIdLoader may answer an unknown node ID with an empty set instead of ErrNotFound
 	if _, err := rotation.RotateRootCertificates(w.Ctx, w.Storage, w.Opts()...); err != nil {
 		r.HarnessErr("bootstrap roots: %v", err)
 	}
